@@ -372,6 +372,22 @@ def numpy_rule(A: Analysis, col: Collector, rule: str):
         col.ok(rule, "the ndarray serializer's output depends on the element dtype", A.loc(fn.node))
     else:
         col.fail(rule, fn.qualname, "numpy-missing:dtype", f"the ndarray serializer yields values derived from {sorted(yielded_attrs)} only; the dtype is not part of the hash: int64 zeros and float64 zeros hash alike", A.loc(fn.node))
+    # the bytes must be taken in one canonical element order: memory layout (C / Fortran /
+    # strided views) is not content
+    layout_dep = []
+    for c in A.calls(fn):
+        if isinstance(c.func, ast.Attribute) and c.func.attr in ("tobytes", "ravel", "flatten", "tostring"):
+            o = kwarg(c, "order") or (c.args[0] if c.args else None)
+            if o is not None and not (isinstance(o, ast.Constant) and o.value == "C"):
+                layout_dep.append(c)
+        if isinstance(c.func, ast.Name) and c.func.id in ("memoryview", "bytes") and c.args and norm(c.args[0]) == param:
+            layout_dep.append(c)
+    if any(isinstance(a, ast.Attribute) and a.attr == "data" and isinstance(a.value, ast.Name) and a.value.id == param for a in walk_own(fn.node)):
+        layout_dep.append(fn.node)
+    if layout_dep:
+        col.fail(rule, fn.qualname, "numpy-bytes-depend-on-memory-layout", f"`{norm(layout_dep[0], 50)}` serialises the array in its own memory order: arrays with equal shape, dtype and elements but different layout (C vs Fortran order, transposed views) hash differently", A.loc(layout_dep[0]))
+    else:
+        col.ok(rule, "the element bytes are taken in canonical C order (independent of the array's memory layout)", A.loc(fn.node))
     if yielded_attrs & {"tobytes", "data", "ravel"}:
         col.ok(rule, "the ndarray serializer covers the element bytes", A.loc(fn.node))
     else:
